@@ -11,7 +11,9 @@
 (*                                     to = peer owning the destination address ("?" if none), ok = bytes are  *)
 (*                                     exactly payload id                                                      *)
 (*   PeerRecv{p,id,len,ok}             raw peer p read one datagram                                            *)
-(*   Settled                           the step is over: the engine is quiescent                               *)
+(*   Settled                           the step is over: the engine is quiescent.  After a burst (datagrams    *)
+(*                                     queued while the I/O thread was parked, then NO further traffic) it is  *)
+(*                                     logged when the engine has read everything or stopped making progress   *)
 (*                                                                                                          *)
 (* Demands:                                                                                                  *)
 (*  R1  Out: matches one accepted, not yet emitted send: same bytes (ok, len), addressed to the peer of the   *)
